@@ -72,6 +72,11 @@ CLAIMED['C20'] = dict(
    text='Proof + translation validation. The grammar recovered from the shipped generated code equals, as a Coq term, the grammar the in-tree DSL parser reads from specification_orig.rs (C20_grammars_are_equal, via a proved-sound boolean equality evaluated by vm_compute); every shipped stringify / PartialEq is the template instance of its entry; the translator rejects any statement it cannot account for, so the shipped code is an instance of the modelled template. The generator side is observed directly: the crate is rebuilt with specification.rs := the macro invocation compiled with the in-tree a2lmacros, the same harness (typed dumper included) is compiled against it, and complete transcripts (model dump, diagnostics, written text, reload) of both builds are compared byte for byte on valid, faulty and mutated documents in both modes.',
    note='rustc macro expansion itself is observed, not modelled. The hand-written A2ml / IfData impls exist in both files and are pinned token for token by the translator.',
    design='8 C20')
+CLAIMED['C08'] = dict(
+   technique='Coq proof about a namespace-level model of merge.rs (calculate_item_actions, make_unique_name, push loops, name-keyed GROUP/FUNCTION union): closed form of the result, conservation, freshness/injectivity of generated names by list reasoning, termination by pigeonhole; extracted model vs A2lFile::merge_modules differential in every namespace',
+   text='Proof. One namespace of the merge is modelled as lists of (kind, name, content) with the implementation\'s two hash maps, first-match lookup and per-kind push loops; GROUP/FUNCTION as the name-keyed union of four member lists. Proved for all inputs with unique names per side: the result is A followed by the representatives of B in order (C08_result_closed_form), every element of A is kept in place, every element of B is shared, added or added under a name X.MERGE/X.MERGEn that neither side uses (C08_represents_every_element_of_B), nothing else appears, names stay unique across the kinds sharing the namespace (C08_names_stay_unique; needs that two elements can never get the same generated name, C08_generated_names_do_not_collide), the while loop of make_unique_name terminates for every set of existing names (C08_unique_name_terminates, pigeonhole), merging nothing / an identical copy / into empty are neutral, uniqueness is an invariant of sequences of merges, and groups of A only gain members at the end of their lists while every group of B is covered. Tie: extracted model and real merge_modules on generated module pairs written as A2L text in all 9 namespaces (20 element kinds), with twins, conflicts, cross-kind conflicts, pre-existing X.MERGEn names, several namespaces at once, sequences of up to 4 merges and GROUP/FUNCTION pairs; every result list compared; the statement itself re-evaluated on the implementation results by an independent oracle.',
+   note='Content of an element = an id placed in its long identifier (elements carry no resolvable references in these pairs, so rename tables do not touch them; the interaction with renamed references is C09). SYSTEM_CONSTANT (name-only union), MEMORY_LAYOUT and the all-or-nothing singletons are outside the named namespaces of the statement.',
+   design='8 C08')
 REASON_TODO = 'not yet implemented in this round (model/theorems planned in DESIGN.md section 8); no claim is made'
 
 def main():
